@@ -359,6 +359,10 @@ func c03Judge(c *c03Case) (f *core.Failure, nontrivial bool, status, observed st
 	s2.NoLog = true
 	bat := drv.Run(c.Query, s2, drv.Opt{Mode: drv.Batch, B: c.B})
 	observed = bat.Status() + strings.Join(bat.Rows, ";")
+	if bat.Panic != "" || row.Panic != "" {
+		// an error value may legitimately come from one mode only; a panic is never a result
+		return mk("panic", "rows or an error value in both modes", "row: "+row.Describe()+" ; batch: "+bat.Describe()), true, "", observed
+	}
 	if !bat.Failed() && row.Failed() {
 		return mk("row-fails-where-batch-succeeds", "row iteration completes (batch iteration does: "+bat.Describe()+")", "row: "+row.Describe()), true, "", observed
 	}
